@@ -37,6 +37,14 @@ CHECKS['C04'] = dict(level='exploration', design='6/C04',
     technique='property-based testing (Hypothesis): invariants over the written FASTA files and the peptide table of the three calling commands against a model-computed canonical pool',
     text='For generated references/records and all cleavage settings the outputs of callVariant, callNovelORF and callAltTranslation are checked for canonical peptides (model pool incl. I->L), length/mass limits, alphabet, uniqueness, and the peptide table for pair equality with the FASTA and slice consistency.',
     note='Canonical pool from vf/enz.py (validated against the tool by C10); crashes of callVariant are not judged here (C01).')
+CHECKS['C08'] = dict(level='exploration', design='6/C08',
+    technique='property-based testing (Hypothesis): set equality (two-sided bounds L <= FASTA <= U) against a definitional ORF digest by the independent model; ORF FASTA re-derived from the transcript sequence; attribution of every peptide to its named ORF',
+    text='For generated references and option sets (biotype inclusion/exclusion files, min-tx-length, coding-novel-orf, orf-assignment, w2f, all cleavage rules) the callNovelORF FASTA must contain every certain product and nothing but possible products of the ORFs (every ATG, three frames, to next stop or transcript end) of exactly the transcripts the options select, minus the model canonical pool; the ORF FASTA must list every ORF a header names, each listed ORF must start at an ATG of a selected transcript and its coordinates must translate to the listed sequence.',
+    note='L/U differ only by a 1e-6 Da mass band, by W>F forms of canonical peptides, and by the reading of multi-residue cleavage windows next to the ORF ends (isolated vs. with flanking residues / stop symbol). Strict domain: all rules except pepsin, no trypsin exception; thorough adds those, tolerated only as the open findings CV-pepsin / CV-trypsin-exception. Biotype filters are modelled on the gene biotype attribute, as the tool reads it.')
+CHECKS['C09'] = dict(level='exploration', design='6/C09',
+    technique='property-based testing (Hypothesis): set equality (two-sided bounds) against a definitional alt-translation digest by the independent model; every header entry replayed as a witness (named SECT / W2F events alone reproduce the peptide)',
+    text='For generated references with selenoprotein transcripts, W-rich CDSs and NF tags, and the three flag combinations, the callAltTranslation FASTA must equal the model set: products of the annotated translation that arise only through termination at an annotated Sec codon and/or W>F substitution, minus plain products and the canonical pool; each header entry must name a coding transcript and events that alone reproduce the peptide.',
+    note='Same L/U gaps as C08 plus the Met-removed twin of a cds_start_NF translation that happens to start with M (permitted, not demanded). Open finding C09-sect-open-tail (SECT peptides in the trailing segment of mRNA_end_NF transcripts are not reported) is tolerated by a structural signature only.')
 NOT_YET = {}
 
 def main():
